@@ -196,6 +196,102 @@ def render(lang, src, **data):
 
 
 # --------------------------------------------------------------------------
+# custom delimiters of NewTextTemplate (Model/TmplScanD.lean)
+
+# (directive start, directive end, comment start, comment end); the last ones are outside the side
+# condition of the model (the directive end starts with a word character / a blank): counted as unmodelled
+DELIMS = [('{%', '%}', '{#', '#}'), ('<<', '>>', '<#', '#>'), ('[[', ']]', '[*', '*]'), ('<?', '?>', '<!--', '-->'),
+          ('{{', '}}', '{*', '*}'), ('@(', ')@', '@*', '*@'), ('%', '%', '#', '#'), ('{%', '%}', '{%#', '#%}'),
+          ('((', '))', '(#', '#)'), ('$(', ')', '$#', '#'), ('{%', 'x}', '{#', '#}'), ('{%', ' %}', '{#', '#}')]
+
+
+def gen_raw_delims(rng, malformed=None):
+    """raw text of the new syntax (same fragment grammar as gen_new) written with another set of
+    delimiters: -> (delims, source)"""
+    d = rng.choice(DELIMS)
+    src = gen_raw(rng, 'newtext', malformed)
+    marks = {'{%': '\x00', '%}': '\x01', '{#': '\x02', '#}': '\x03'}
+    for k in ('{%', '%}', '{#', '#}'):
+        src = src.replace(k, marks[k])
+    for k, v in zip(('{%', '%}', '{#', '#}'), d):
+        src = src.replace(marks[k], v)
+    return d, src
+
+
+_TMPLD = {}
+
+
+def _tmpl_d(delims):
+    if delims not in _TMPLD:
+        _TMPLD[delims] = _cls('newtext')('', delims=delims)
+    return _TMPLD[delims]
+
+
+def real_tokens_d(delims, src):
+    try:
+        return _real_tokens_d(delims, src)
+    except Exception as e:  # noqa  (the expressions for these delimiters do not compile / have other groups)
+        return ['err', type(e).__name__]
+
+
+def _real_tokens_d(delims, src):
+    t = _tmpl_d(delims)
+    out, offset = [], 0
+    for mo in t._directive_re.finditer(src):
+        start, end = mo.span(1)
+        if start > offset:
+            out.append(['T', src[offset:start]])
+        if mo.group(2) is not None:
+            out.append(['D', src[start + len(delims[0]):end - len(delims[1])], mo.group(2), mo.group(3)])
+        else:
+            out.append(['C', src[start + len(delims[2]):end - len(delims[3])]])
+        offset = end
+    if offset < len(src):
+        out.append(['T', src[offset:]])
+    return out
+
+
+def real_parse_d(delims, src):
+    try:
+        t = _tmpl_d(delims)
+    except Exception as e:  # noqa
+        return ['err', type(e).__name__]
+    try:
+        with warnings.catch_warnings():
+            warnings.simplefilter('ignore')
+            stream = t._parse(io.StringIO(src), None)
+    except Exception as e:  # noqa
+        n = type(e).__name__
+        return ['err', ERRCLS.get(n, n)]
+    return ['ok', canon_stream(type(t), stream)]
+
+
+def model_answers_d(cases):
+    """cases: [(delims, src)] -> list of (tokens, parse verdict | None) | None when the delimiters are
+    outside the side condition of the model"""
+    res = []
+    lines = [proto.line(Atom('C04'), Atom('rawnewd'), d[0], d[1], d[2], d[3], s) for d, s in cases]
+    for a in proto.run_lines(lines):
+        if a.strip() == 'unmodelled':
+            res.append(None)
+            continue
+        v = proto.dec(a)
+        toks, parsed = _toks('newtext', v[0]), v[1]
+        evs = _evs(parsed[1] if str(parsed[0]) == 'ok' else parsed[2])
+        if str(parsed[0]) == 'err' and str(parsed[1]) == 'unmodelled':
+            res.append((toks, None))
+        elif any(_beyond_codegen(s, m) for m, s in _sources(evs, [])):
+            res.append((toks, None))
+        elif any(not _compiles(s, m) for m, s in _sources(evs, [])):
+            res.append((toks, ['err', 'badsyntax']))
+        elif str(parsed[0]) == 'ok':
+            res.append((toks, ['ok', evs]))
+        else:
+            res.append((toks, ['err', str(parsed[1])]))
+    return res
+
+
+# --------------------------------------------------------------------------
 # the model
 
 def _compiles(src, mode):
@@ -206,6 +302,17 @@ def _compiles(src, mode):
         return True
     except (SyntaxError, ValueError):
         return False
+
+
+def _beyond_codegen(src, mode):
+    """Python the code generator of genshi.template.astutil does not handle (set literals, which the
+    delimiters `{{ }}` produce as `${{ x }}`: 'Unhandled node type Set' — C13's subject, not the scanner's)"""
+    import ast
+    try:
+        tree = ast.parse(src.strip(), mode=mode)
+    except (SyntaxError, ValueError):
+        return False
+    return any(isinstance(n, (ast.Set, ast.SetComp, ast.DictComp, ast.NamedExpr, ast.JoinedStr)) for n in ast.walk(tree))
 
 
 def _sources(evs, out):
